@@ -94,7 +94,23 @@ func tcpAddr(s string) *net.TCPAddr {
 		panic("vnet: bad address " + s)
 	}
 	port, _ := strconv.Atoi(p)
-	return &net.TCPAddr{IP: net.ParseIP(h), Port: port}
+	return &net.TCPAddr{IP: ip4(net.ParseIP(h)), Port: port}
+}
+
+// ip4 returns an IPv4 address in its 4-byte form, as the addresses of a real AF_INET connection are
+// (so that (*net.TCPAddr).AddrPort() yields a plain IPv4 address, not an IPv4-mapped one).
+func ip4(ip net.IP) net.IP {
+	if v4 := ip.To4(); v4 != nil {
+		return v4
+	}
+	return ip
+}
+
+// mapped returns a copy of a with an IPv4 address in its 16-byte form: the addresses of an IPv4 connection
+// accepted on a dual-stack (AF_INET6) wildcard listener are IPv4-mapped; String() prints them dotted all the
+// same, AddrPort() does not.
+func mapped(a *net.TCPAddr) *net.TCPAddr {
+	return &net.TCPAddr{IP: a.IP.To16(), Port: a.Port, Zone: a.Zone}
 }
 
 // Conn is one endpoint of a virtual TCP connection.
@@ -504,6 +520,7 @@ type Listener struct {
 	key    string
 	queue  []*Conn
 	closed bool
+	dual   bool
 	obj    *vrt.Obj
 }
 
@@ -518,6 +535,9 @@ func (nw *Network) Listen(addr string) (*Listener, error) {
 		return nil, &net.OpError{Op: "listen", Net: "tcp", Addr: a, Err: syscall.EADDRINUSE}
 	}
 	l := &Listener{nw: nw, addr: a, key: key}
+	if h, _, _ := net.SplitHostPort(addr); h == "" || h == "::" {
+		l.dual = true // ":port" / "[::]:port" listens on an AF_INET6 socket that also takes IPv4 connections
+	}
 	l.obj = vrt.NewObj("listener")
 	l.obj.NoSync = true
 	nw.listeners[key] = l
@@ -567,7 +587,11 @@ func (nw *Network) DialIn(from, to string) (*Conn, error) {
 	if l == nil || l.closed {
 		return nil, &net.OpError{Op: "dial", Net: "tcp", Addr: ta, Err: syscall.ECONNREFUSED}
 	}
-	lib, rem := nw.pair(ta, tcpAddr(from), true)
+	fa := tcpAddr(from)
+	lib, rem := nw.pair(ta, fa, true)
+	if l.dual {
+		lib.local, lib.remote = mapped(ta), mapped(fa)
+	}
 	vrt.Touch("vnet.DialIn", false, l.obj)
 	l.queue = append(l.queue, lib)
 	return rem, nil
@@ -587,9 +611,9 @@ func (nw *Network) Dial(ctx context.Context, local net.Addr, address string, con
 	ra := tcpAddr(address)
 	var la *net.TCPAddr
 	if t, ok := local.(*net.TCPAddr); ok && t != nil {
-		la = &net.TCPAddr{IP: t.IP, Port: t.Port}
+		la = &net.TCPAddr{IP: ip4(t.IP), Port: t.Port}
 	} else {
-		la = &net.TCPAddr{IP: net.ParseIP(nw.LibHost)}
+		la = &net.TCPAddr{IP: ip4(net.ParseIP(nw.LibHost))}
 	}
 	vrt.Wait("net.Dialer.DialContext", "net-dial", nil, false, nw.obj)
 	if la.Port == 0 {
